@@ -324,14 +324,101 @@ Proof.
   intros Hf. apply andb_true_iff in Hf. destruct Hf as [H1 H2]. apply andb_true_iff. split; auto.
 Qed.
 
-Lemma obs_allows_classified : forall (key : peer -> N) holders t self runs1 e winner ready2 msgs2,
+(* ---- the waits with their durations ---- *)
+
+Lemma list_peer_eqb_refl : forall l, list_peer_eqb l l = true.
+Proof. intros l. apply list_peer_eqb_eq. reflexivity. Qed.
+
+Lemma runs_of_cons_ready : forall f o, runs_of (OReady f :: o) = runs_of o.
+Proof. reflexivity. Qed.
+
+(* A wait that accepts every sender, whose own ticker never fires before the watcher's: every
+   well-formed start message that arrives before the watcher's bound is honoured. *)
+Lemma timed_wait_honours : forall timeout watch msgs deadline,
+  (watch <= deadline)%N -> (watch <= timeout)%N ->
+  honoured watch msgs (runs_of (fst (timed_wait None timeout watch deadline Waiting msgs))) = true.
+Proof.
+  intros timeout watch. induction msgs as [|[at_ m] r IH]; intros deadline Hd Ht; cbn [honoured]; [reflexivity|].
+  destruct (watch <=? at_)%N eqn:Hw; [reflexivity|].
+  apply N.leb_gt in Hw.
+  cbn [timed_wait]. assert (Hw' : (watch <=? at_)%N = false) by (apply N.leb_gt; exact Hw). rewrite Hw'.
+  assert (Hdl : (deadline <=? at_)%N = false) by (apply N.leb_gt; lia). rewrite Hdl.
+  cbn [is_waiting andb].
+  destruct m as [f|f [l|]|f]; try reflexivity.
+  - cbn [wait_step2 from_ok].
+    specialize (IH (at_ + timeout)%N).
+    destruct (timed_wait None timeout watch (at_ + timeout) Waiting r) as [o' late] eqn:Hrec.
+    cbn [fst app]. rewrite runs_of_cons_ready. cbn [fst] in IH. apply IH; lia.
+  - cbn [wait_step2 from_ok].
+    destruct (timed_wait None timeout watch deadline Running r) as [o' late].
+    cbn [fst app runs_of flat_map existsb snd]. rewrite list_peer_eqb_refl. reflexivity.
+Qed.
+
+Lemma left_out_honours : forall tm msgs,
+  honoured (tss_to tm) msgs (runs_of (fst (left_out_wait tm msgs))) = true.
+Proof.
+  intros tm msgs. unfold left_out_wait, left_out_wait_timeout, watch_timeout.
+  apply timed_wait_honours; lia.
+Qed.
+
+Definition early_initiate (watch : N) (x : N * wmsg) : Prop :=
+  (fst x < watch)%N /\ exists f, snd x = MInitiate f.
+
+(* what [honoured] means: after initiate messages only, a well-formed start message that arrives
+   before the bound has been followed by a Run with its params *)
+Lemma honoured_sound : forall watch pre at_ f l post runs,
+  Forall (early_initiate watch) pre -> (at_ < watch)%N ->
+  honoured watch (pre ++ (at_, MStart f (Some l)) :: post) runs = true ->
+  exists r, In r runs /\ snd r = l.
+Proof.
+  intros watch pre at_ f l post runs Hpre Hat. induction Hpre as [|[a m] pre' [Ha [g Hg]] _ IH]; cbn [app honoured]; intros H.
+  - assert (Hw : (watch <=? at_)%N = false) by (apply N.leb_gt; exact Hat). rewrite Hw in H.
+    apply existsb_exists in H. destruct H as [r [Hin Hr]]. exists r. split; [exact Hin|].
+    apply list_peer_eqb_eq in Hr. exact Hr.
+  - cbn [fst snd] in Ha, Hg. subst m.
+    assert (Hw : (watch <=? a)%N = false) by (apply N.leb_gt; exact Ha). rewrite Hw in H. apply IH. exact H.
+Qed.
+
+(* the left-out relayer: a start message that arrives (after initiate messages only) before the TSS
+   timeout starts the process - whatever the coordinator timeout is *)
+Lemma left_out_honours_start : forall tm pre at_ f l post,
+  Forall (early_initiate (tss_to tm)) pre -> (at_ < tss_to tm)%N ->
+  In (false, l) (runs_of (fst (left_out_wait tm (pre ++ (at_, MStart f (Some l)) :: post)))).
+Proof.
+  intros tm pre at_ f l post Hpre Hat.
+  pose proof (left_out_honours tm (pre ++ (at_, MStart f (Some l)) :: post)) as H.
+  apply (honoured_sound _ _ _ _ _ _ _ Hpre Hat) in H. destruct H as [[b l'] [Hin Hl]]. cbn [snd] in Hl. subst l'.
+  assert (Hb : b = false).
+  { pose proof (runs_of_flags (fst (left_out_wait tm (pre ++ (at_, MStart f (Some l)) :: post)))) as Hf.
+    rewrite forallb_forall in Hf. specialize (Hf _ Hin). cbn [fst] in Hf. destruct b; [discriminate | reflexivity]. }
+  subst b. exact Hin.
+Qed.
+
+(* ... and it gives up at the TSS timeout: a message arriving then finds the session over *)
+Lemma left_out_gives_up : forall tm at_ m r,
+  (tss_to tm <= at_)%N -> left_out_wait tm ((at_, m) :: r) = ([], true).
+Proof.
+  intros tm at_ m r H. unfold left_out_wait, watch_timeout. cbn [timed_wait].
+  assert (Hw : (tss_to tm <=? at_)%N = true) by (apply N.leb_le; exact H). rewrite Hw. reflexivity.
+Qed.
+
+(* a relayer that knows the retried attempt's coordinator gives up after the coordinator timeout *)
+Lemma start_wait_gives_up : forall tm c2 at_ m r,
+  (coord_to tm <= at_)%N -> retry_start_wait tm c2 ((at_, m) :: r) = ([], true).
+Proof.
+  intros tm c2 at_ m r H. unfold retry_start_wait, start_wait_timeout. cbn [timed_wait is_waiting andb].
+  assert (Hw : (coord_to tm <=? at_)%N = true) by (apply N.leb_le; exact H). rewrite Hw.
+  destruct (watch_timeout tm <=? at_)%N; reflexivity.
+Qed.
+
+Lemma obs_allows_classified : forall (key : peer -> N) tm holders t self runs1 e winner ready2 msgs2,
   In self holders ->
   (forall ps, classify e = RetryExcluding ps -> ~ In self ps) ->
   classify e <> GiveUp ->
-  obs_allows holders (length runs1)
-    (continue key classify holders t self true runs1 e winner ready2 msgs2) (classify e) = true.
+  obs_allows tm msgs2 holders (length runs1)
+    (continue key tm classify holders t self true runs1 e winner ready2 msgs2) (classify e) = true.
 Proof.
-  intros key holders t self runs1 e winner ready2 msgs2 Hsh Hself Hng.
+  intros key tm holders t self runs1 e winner ready2 msgs2 Hsh Hself Hng.
   unfold continue, after_failure_with. cbn [negb].
   destruct (classify e) as [ps| | |] eqn:Hc; [| | congruence |].
   - (* retry *)
@@ -355,21 +442,22 @@ Proof.
       eapply forallb_impl; [|apply runs_of_flags].
       intros r Hr. apply negb_true_iff in Hr. rewrite Hr. reflexivity.
   - (* wait *)
-    unfold obs_allows. cbn [o_elected o_final].
-    destruct (has_bad _); reflexivity.
+    unfold obs_allows. cbn [o_elected o_final o_runs].
+    rewrite skipn_app_exact. rewrite left_out_honours. rewrite andb_true_r.
+    destruct (has_bad _ || _); reflexivity.
   - (* decode error *)
     unfold obs_allows. cbn [o_elected o_runs o_final].
     replace (skipn (length runs1) runs1) with (@nil (bool * list peer)); [reflexivity|].
     rewrite <- (app_nil_r runs1) at 2. rewrite skipn_app_exact. reflexivity.
 Qed.
 
-Lemma spec_ok_model : forall (key : peer -> N) holders t self retryable runs1 e winner ready2 msgs2,
+Lemma spec_ok_model : forall (key : peer -> N) tm holders t self retryable runs1 e winner ready2 msgs2,
   In self holders ->
   (forall ps, classify e = RetryExcluding ps -> ~ In self ps) ->
-  spec_ok holders retryable e (length runs1)
-    (continue key classify holders t self retryable runs1 e winner ready2 msgs2) = true.
+  spec_ok tm msgs2 holders retryable e (length runs1)
+    (continue key tm classify holders t self retryable runs1 e winner ready2 msgs2) = true.
 Proof.
-  intros key holders t self retryable runs1 e winner ready2 msgs2 Hsh Hself.
+  intros key tm holders t self retryable runs1 e winner ready2 msgs2 Hsh Hself.
   assert (Hskip : skipn (length runs1) runs1 = []).
   { rewrite <- (app_nil_r runs1) at 2. apply skipn_app_exact. }
   unfold spec_ok. destruct retryable; cbn [negb].
@@ -386,14 +474,14 @@ Proof.
 Qed.
 
 (* what an accepted observation means, case by case *)
-Lemma obs_allows_retry_sound : forall holders nfirst o ps,
-  obs_allows holders nfirst o (RetryExcluding ps) = true ->
+Lemma obs_allows_retry_sound : forall tm msgs2 holders nfirst o ps,
+  obs_allows tm msgs2 holders nfirst o (RetryExcluding ps) = true ->
   exists cs, o_elected o = Some cs
     /\ (forall p, In p ps -> ~ In p cs)
     /\ (forall p, In p holders -> ~ In p ps -> In p cs)
     /\ (forall sub, In (true, sub) (skipn nfirst (o_runs o)) -> forall p, In p ps -> ~ In p sub).
 Proof.
-  intros holders nfirst o ps H. unfold obs_allows in H.
+  intros tm msgs2 holders nfirst o ps H. unfold obs_allows in H.
   destruct (o_elected o) as [cs|]; [|discriminate]. exists cs. split; [reflexivity|].
   apply andb_true_iff in H. destruct H as [H H3]. apply andb_true_iff in H. destruct H as [H1 H2].
   unfold same_set in H1. apply andb_true_iff in H1. destruct H1 as [Ha Hb].
@@ -406,18 +494,25 @@ Proof.
     apply memb_false_In in H2. exact (H2 Hp).
 Qed.
 
-Lemma obs_allows_giveup_sound : forall holders nfirst o,
-  obs_allows holders nfirst o GiveUp = true ->
+Lemma obs_allows_giveup_sound : forall tm msgs2 holders nfirst o,
+  obs_allows tm msgs2 holders nfirst o GiveUp = true ->
   o_elected o = None /\ skipn nfirst (o_runs o) = [] /\ o_final o = FOriginal.
 Proof.
-  intros holders nfirst o H. unfold obs_allows in H.
+  intros tm msgs2 holders nfirst o H. unfold obs_allows in H.
   destruct (o_elected o); [discriminate|]. destruct (skipn nfirst (o_runs o)); [|discriminate].
   apply N.eqb_eq in H. auto.
 Qed.
 
-Lemma obs_allows_wait_sound : forall holders nfirst o,
-  obs_allows holders nfirst o WaitForStart = true -> o_elected o = None /\ o_final o <> FOriginal.
+Lemma obs_allows_wait_sound : forall tm msgs2 holders nfirst o,
+  obs_allows tm msgs2 holders nfirst o WaitForStart = true ->
+  o_elected o = None /\ o_final o <> FOriginal
+  /\ (forall pre at_ f l post,
+        msgs2 = pre ++ (at_, MStart f (Some l)) :: post ->
+        Forall (early_initiate (tss_to tm)) pre -> (at_ < tss_to tm)%N ->
+        exists r, In r (skipn nfirst (o_runs o)) /\ snd r = l).
 Proof.
-  intros holders nfirst o H. unfold obs_allows in H.
-  destruct (o_elected o); [discriminate|]. apply negb_true_iff in H. apply N.eqb_neq in H. auto.
+  intros tm msgs2 holders nfirst o H. unfold obs_allows in H.
+  destruct (o_elected o); [discriminate|]. apply andb_true_iff in H. destruct H as [H Hh].
+  apply negb_true_iff in H. apply N.eqb_neq in H. repeat split; auto.
+  intros pre at_ f l post -> Hpre Hat. eapply honoured_sound; eassumption.
 Qed.
